@@ -24,7 +24,7 @@ RULE = ('Hypothesis RuleBasedStateMachine over one long-lived interpreter '
         'a pool of 3-5 generated decks (Boolean level-0 decks, universe '
         'trees, rectangular and hexagonal lattices, duplicate / unused / '
         'flagged surfaces, multi-particle importance decks, material decks, '
-        'LIKE decks) and 5 option sets (one of them --cache); rules: convert(deck, options) '
+        'LIKE decks, small shipped example decks) and 5 option sets (one of them --cache); rules: convert(deck, options) '
         'in-process, convert_failing(fault-injected deck) which must raise, '
         'convert_default_output (no -o; input files are named with '
         'the extensions .imcnp, .i, none and .v2.inp), reconvert(an earlier '
@@ -219,7 +219,14 @@ def pool_deck(draw, tier, homogeneous=False, special=False):
     else:
         which = 'lat' if homogeneous else draw(st.sampled_from(
             ['lat', 'lat', 'lat', 'any', 'any', 'any', 'any', 'imp', 'imp',
-             'mat', 'like']))
+             'mat', 'like', 'corpus', 'corpus']))
+    if which == 'corpus':
+        # one of the shipped example decks (the small ones), with its flags
+        small = [(nm, tx, fl) for nm, tx, fl, enc in c08.shipped_decks()
+                 if enc == 'utf-8' and len(tx) < 4000]
+        nm, tx, fl = draw(st.sampled_from(small))
+        return {'text': tx, 'argv': list(fl),
+                'labels': ['pool:corpus', 'corpus:' + nm]}
     if which == 'lat':
         case = draw(gen_hier.hier_case(tier, {'lattice': 'force',
                                               'max_depth': 2,
